@@ -554,6 +554,10 @@ class Interp:
             i = z3.Int(st.fresh_name("in_i"))
             return z3.Exists([i], z3.And(0 <= i, i < smt.slen(t), smt.sat_(t, i) == zint(item.t)))
         if isinstance(container, VOpaque):
+            if container.tag == "Filtered":
+                # membership in a filtered abstract sequence: in the source sequence and satisfying the filter
+                from .calls import INTRINSICS
+                return self.truthy(INTRINSICS["Filtered.__contains__"](self, container, [item], {}, fr, "contains"))
             if self.E.contract_of(container.tag + ".__contains__"):
                 return self.truthy(self.call_value(VFunc(container.tag + ".__contains__", container), [item], {}, fr, "contains"))
             return VOpaqueBool(st, "contains")
